@@ -114,7 +114,13 @@ func schemeCase(all []sign.Scheme, s sign.Scheme, k, m int) {
 	var pk, pk2 sign.PublicKey
 	var sk sign.PrivateKey
 	if p := lib.Try("DeriveKey:"+name, seed, func() {
-		pk, sk = s.DeriveKey(seed)
+		// the seed buffer is overwritten as soon as the call returns: the
+		// key pair must not change with it
+		seedIn := lib.Clone(seed)
+		pk, sk = s.DeriveKey(seedIn)
+		for i := range seedIn {
+			seedIn[i] ^= 0xA5
+		}
 		pk2, _ = s.DeriveKey(keySeed("c02/scheme-otherkey/"+name, k+2, s.SeedSize()))
 	}); p != nil {
 		lib.Violation("C02:panic:"+name+":DeriveKey", monSchemes, lib.D("seed", seed, "panic", p.Value, "frame", p.TopFrame()))
